@@ -115,3 +115,13 @@ def run(ctx):
             # cannot decide here: keep the arithmetic finding visible as the known finding
             ctx.violation("rank-without-lps", {"outcome": "hang", "input": f9_lines[0],
                                                "replay": "MPI not available: not replayed"}, True)
+    # routing AT THE POINT OF USE (ScheduleNewEvent in process.c): two-rank runs against the adversarial peer - every event this rank
+    # schedules for an LP of the other rank (in particular its FIRST LP) must leave through the remote path, everything else must stay
+    # local; re-executed line by line (the model predicts `send` vs `rsend` from the proved placement functions)
+    from props import runlib
+    keep = dict(ctx.coverage)
+    runlib.peer_matrix(ctx, 16, 200, salt=14)
+    pm = ctx.coverage.get("peer_mode")
+    ctx.coverage.clear()
+    ctx.coverage.update(keep)
+    ctx.coverage["routing_at_use(two-rank peer runs)"] = pm
